@@ -54,6 +54,33 @@ CLAIMED['C08'] = {
             'verified; HTML/LaTeX/F12 renderings are C14\'s.',
 }
 
+CLAIMED['C13'] = {
+    'technique': 'Rocq proof over a hand-written executable model (tie B) + step-by-step correspondence on random operation histories, checked inside Coq',
+    'text': ('Thirty axiom-free theorems over Model/DB.v, for all tables, all formulas (arbitrary functions of the row), all RNG outcomes and all '
+             'histories: remove exact for any labels (unsorted, gaps, duplicates) with count and no leftover column; add/define pointwise; scale of exactly '
+             'one column; split a multiset partition with complements and unseparated groups; bootstrap within rows / individuals; extract positional also '
+             'after removals; count; flatten; well-formedness, panel-state and label-uniqueness invariants over arbitrary histories; raising calls and a '
+             'refused panel declaration leave the state untouched; stable sort keeps each individual\'s observation order; remove rebuilds the panel map; '
+             'check_split / check_subset equivalent to their specs; dyadic arithmetic exact. Bound to the code by stream ops (histories of <= 12 calls on '
+             '1-12 row tables with shifted, gapped, unsorted or duplicated labels; full state compared exactly after every call inside Coq) and by a direct '
+             'Fraction oracle.'),
+    'note': KERNEL + 'pandas/numpy primitives as modelled (iloc, column append, stable sort_values, array_split, unique, groupby order); numpy RNG replayed by '
+            'seeding; formulas restricted to an exact-in-double family; mdcev_* helpers and int64 overflow not modelled.',
+}
+CLAIMED['C18'] = {
+    'technique': 'Rocq proof over closed forms + definitions regenerated from source (tie A), correspondence streams (tie B)',
+    'text': ('Proved over Coq reals (Coquelicot) for GammaProfile, Translated, Generalized and NonMonotonic, with and without outside good, prices and scale: '
+             'the twelve numeric one-alternative methods, re-translated from /repo on every run, equal the closed forms on their domain; the marginal utility '
+             'is the derivative of the utility; the closed-form optimal consumption inverts it; the marginal utility is non-increasing; KKT sufficiency (with an '
+             'eps/delta version) over lists of concave goods with prices, so a forecast satisfying the checked conditions is at least as good as any feasible '
+             'point, brute force included; the outside good has unbounded marginal utility at 0; the symbolic validation utility evaluates (evalX) to the numeric '
+             'closed form; relabelling by any injective map commutes with the marginal-utility and consumption tables; the rational checker kkt_checkQ is sound. '
+             'Tied by streams pieces, trees (structural expr_eqb) and forecast (bisection output, public API, brute force and relabelings; every forecast '
+             're-checked by kkt_checkQ in Coq on exact rationals).'),
+    'note': KERNEL + 'PARTIAL: convergence of the bisection to its tolerance, the greedy chosen-set identification and SLSQP are numerical and only sampled; '
+            'floating-point rounding outside the theorems; the specialised extractor in lib/props/C18.py; CPython set order modelled as an arbitrary duplicate-free list.',
+}
+
 _NOT_YET = 'check not built yet in this session (framework under construction); no claim made'
 NOT_APPLICABLE = {p: _NOT_YET for p in
                   ['C01', 'C02', 'C03', 'C04', 'C05', 'C06', 'C07', 'C08', 'C09', 'C10', 'C11', 'C12', 'C13',
